@@ -18,5 +18,9 @@ KV == INSTANCE RainKV WITH
         frozen <- [i \in 1..Len(snaps) |-> KVStore(snaps[i])],
         views  <- {[id |-> p.id, map |-> [k \in Keys |-> PinGet(p, k)]] : p \in pins}
 ImplementsKV == KV!KVSpec
+\* a second directed configuration: 1 2 | 1 2 3 (snapshot) 3 - a parent file [1..2] two levels down,
+\* then a memtable whose compaction output can be cut into [1] [2 3'] [3]: key 3 straddles two files
+MCScript2 == <<1, 2, 1, 2, 3, 3>>
+MCScripted2 == \A i \in 1..Len(hist) : hist[i][1] = MCScript2[i]
 MCScripted == \A i \in 1..Len(hist) : hist[i][1] = MCScript[i]
 =============================================================================
